@@ -11,6 +11,7 @@ import Anko.Model.BinOp
 import Anko.Model.FloatImpl
 import Anko.Model.Cli
 import Anko.Model.Builtins
+import Anko.Model.Eval
 
 open Anko
 
@@ -153,10 +154,37 @@ where
       | some e => some (.inr e)
       | none => none
 
+/-- `(run fuel cancelAt prog)`: run a whole program on the model. -/
+def handleRun (args : List Sexp) : String :=
+  match args with
+  | [.atom fuelS, .atom cancelS, prog] =>
+    match fuelS.toNat?, decodeStmt prog with
+    | some fuel, some p =>
+      let cancelAt := cancelS.toNat?
+      let s0 := St.init cancelAt
+      -- the harness binds these Go stubs in the global scope
+      let stubs := ["probe", "id", "probe2", "probe3", "vprobe", "fv", "typed", "typed2", "boom", "zero", "two"]
+      let s1 := stubs.foldl (fun st n => st.define 0 n ⟨false, .gofn n⟩) s0
+      let r := runProgram fuel p s1
+      match r.unsup with
+      | some w => "unsupported " ++ w
+      | none =>
+        let res := match r.err with
+          | none => "ok " ++ encodeVal r.rv.v
+          | some e => "err " ++ e.msg
+        let tr := " ".intercalate (r.trace.toList.map encodeVal)
+        let vars := (r.scopes[0]?).map (·.vars) |>.getD []
+        let vs := (vars.filter (fun p => !stubs.contains p.1)).map (fun p => "(" ++ p.1 ++ " " ++ encodeVal p.2.v ++ ")")
+        let vs := vs.toArray.qsort (· < ·)
+        s!"res={res} trace=({tr}) polls={r.polls} vars=({" ".intercalate vs.toList})"
+    | _, _ => "bad-args"
+  | _ => "bad-args"
+
 def handle (line : String) : String :=
   match Sexp.parse line with
   | none => "bad-sexp"
   | some (.list (.atom "walk" :: args)) => handleWalk args
+  | some (.list (.atom "run" :: args)) => handleRun args
   | some (.list [.atom "tree", t]) => (match evalTree t with | some r => showOpRes r | none => "bad-args")
   | some (.list (.atom cmd :: args)) => handleOps cmd args
   | some _ => "bad-op"
